@@ -77,12 +77,18 @@ def run_case(ctx, kind, rng, idx):
     tolm = min(1e-4, 1e-9 * max(cm, 1.0))
     q_by = {}
     m_by = {}
-    src_arg = [list, np.array, tuple][idx % 3](src)
-    snk_arg = [np.array, tuple, list][(idx // 3) % 3](snk)
+    # a state may be written Python-style from the end (-1 is the last state)
+    neg = idx % 5 == 2
+    if neg:
+        ctx.count('negative_index_spellings')
+    spell = (lambda L: [i - n if k % 2 == 0 else i for k, i in enumerate(L)]) \
+        if neg else (lambda L: list(L))
+    src_arg = [list, np.array, tuple][idx % 3](spell(src))
+    snk_arg = [np.array, tuple, list][(idx // 3) % 3](spell(snk))
     if len(src) == 1 and rng.random() < 0.5:
-        src_arg = src[0]
+        src_arg = spell(src)[0]
     if len(snk) == 1 and rng.random() < 0.5:
-        snk_arg = snk[0]
+        snk_arg = spell(snk)[0]
     inter = [i for i in range(n) if i not in src and i not in snk]
     for cname in CONT:
         Tin = mc.to_container(T, cname, rng)
